@@ -3,6 +3,7 @@ package main
 import (
 	"fmt"
 	"regexp"
+	"sync"
 	"go/constant"
 	"go/types"
 	"math/big"
@@ -32,6 +33,7 @@ type VerifyFunc struct {
 	lockcheck bool
 	usedCallClauses map[*Clause]bool
 	usedLoops map[int]bool
+	returns   int
 }
 
 type funcInfo struct {
@@ -81,7 +83,16 @@ func (e *Engine) info(fn *ssa.Function) *funcInfo {
 	for i, h := range hs {
 		fi.headers[h] = i
 	}
-	counts := map[string]int{}
+	// call-site ordinals follow SOURCE order (token.Pos), not block order: block numbering changes when
+	// unrelated control flow is added, source order does not
+	type csite struct {
+		in  ssa.Instruction
+		cc  *ssa.CallCommon
+		pos int
+		seq int
+	}
+	var sites []csite
+	seq := 0
 	for _, b := range fn.Blocks {
 		for _, in := range b.Instrs {
 			var cc *ssa.CallCommon
@@ -96,10 +107,25 @@ func (e *Engine) info(fn *ssa.Function) *funcInfo {
 			if cc == nil {
 				continue
 			}
-			n := calleeShortName(cc)
-			fi.callOrd[in] = callLabel{n, counts[n]}
-			counts[n]++
+			p := int(in.Pos())
+			if p == 0 {
+				p = 1 << 40
+			}
+			sites = append(sites, csite{in, cc, p, seq})
+			seq++
 		}
+	}
+	sort.SliceStable(sites, func(i, j int) bool {
+		if sites[i].pos != sites[j].pos {
+			return sites[i].pos < sites[j].pos
+		}
+		return sites[i].seq < sites[j].seq
+	})
+	counts := map[string]int{}
+	for _, cs := range sites {
+		n := calleeShortName(cs.cc)
+		fi.callOrd[cs.in] = callLabel{n, counts[n]}
+		counts[n]++
 	}
 	funcInfoCache[fn] = fi
 	return fi
@@ -133,6 +159,69 @@ func calleeShortName(cc *ssa.CallCommon) string {
 
 var reAxiomSym = regexp.MustCompile(`g_[A-Za-z0-9_]+|\|H0![^|]+\|`)
 
+var reSymTok = regexp.MustCompile(`\|[^|]+\||[A-Za-z_][A-Za-z0-9_!.$]*`)
+var symCache sync.Map
+
+func symsOf(a string) []string {
+	if v, ok := symCache.Load(a); ok {
+		return v.([]string)
+	}
+	seen := map[string]bool{}
+	var out []string
+	for _, t := range reSymTok.FindAllString(a, -1) {
+		if (strings.Contains(t, "!") || strings.HasPrefix(t, "g_")) && !seen[t] {
+			seen[t] = true
+			out = append(out, t)
+		}
+	}
+	symCache.Store(a, out)
+	return out
+}
+
+// sliceAssumes keeps only the assumptions connected to the goal through shared symbols (cone of influence).
+// Dropping hypotheses can only make a proof harder, never unsound.
+func (st *State) sliceAssumes(goal string) map[int]bool {
+	keep := map[int]bool{}
+	have := map[string]bool{}
+	for _, s := range symsOf(goal) {
+		have[s] = true
+	}
+	// index: symbol -> assumption indices
+	idx := map[string][]int{}
+	for i, a := range st.assumes {
+		for _, s := range symsOf(a) {
+			idx[s] = append(idx[s], i)
+		}
+	}
+	work := make([]string, 0, len(have))
+	for s := range have {
+		work = append(work, s)
+	}
+	for len(work) > 0 {
+		s := work[len(work)-1]
+		work = work[:len(work)-1]
+		for _, i := range idx[s] {
+			if keep[i] || st.isAxiom[i] {
+				continue
+			}
+			keep[i] = true
+			for _, t := range symsOf(st.assumes[i]) {
+				if !have[t] {
+					have[t] = true
+					work = append(work, t)
+				}
+			}
+		}
+	}
+	// ground assumptions without any symbol (e.g. literal facts) are kept
+	for i, a := range st.assumes {
+		if len(symsOf(a)) == 0 {
+			keep[i] = true
+		}
+	}
+	return keep
+}
+
 func (st *State) script(goal string) string {
 	var b strings.Builder
 	b.WriteString(st.eng.prelude())
@@ -141,9 +230,13 @@ func (st *State) script(goal string) string {
 		b.WriteByte('\n')
 	}
 	// axioms are included only when one of their ghost / global symbols occurs elsewhere in the query
+	var keep map[int]bool
+	if goal != "false" {
+		keep = st.sliceAssumes(goal)
+	}
 	var rest strings.Builder
 	for i, a := range st.assumes {
-		if !st.isAxiom[i] {
+		if !st.isAxiom[i] && (keep == nil || keep[i]) {
 			rest.WriteString(a)
 			rest.WriteByte('\n')
 		}
@@ -162,6 +255,8 @@ func (st *State) script(goal string) string {
 			if !rel {
 				continue
 			}
+		} else if keep != nil && !keep[i] {
+			continue
 		}
 		b.WriteString("(assert ")
 		b.WriteString(a)
@@ -397,17 +492,38 @@ func (st *State) storeTo(p *Val, v *Val, t types.Type) {
 
 func (st *State) newRef(hint string) string {
 	r := st.fresh(hint, SInt)
-	st.assume("(> " + r + " 0)")
-	st.assume(eq("(obj_root "+r+")", r))
-	for _, k := range st.known {
-		st.assume(and(not(eq(r, k)), not(eq("(obj_root "+k+")", r))))
+	// allocation order: a new object's reference is above the frontier, i.e. above every reference (and the
+	// root of every reference) this path has seen so far; fresh references are therefore pairwise distinct
+	if st.frontier == "" {
+		st.frontier = "0"
 	}
+	st.assume("(> " + r + " " + st.frontier + ")")
+	st.assume(eq("(obj_root "+r+")", r))
+	st.frontier = r
 	st.freshRefs = append(st.freshRefs, r)
 	st.known = append(st.known, r)
 	return r
 }
 
 func (st *State) knowRef(v *Val) {
+	var ks []string
+	st.collectRefs(v, &ks)
+	if len(ks) == 0 {
+		return
+	}
+	if st.frontier == "" {
+		st.frontier = "0"
+	}
+	f := st.fresh("frontier", SInt)
+	cs := []string{"(>= " + f + " " + st.frontier + ")"}
+	for _, k := range ks {
+		cs = append(cs, "(>= "+f+" "+k+")", "(>= "+f+" (obj_root "+k+"))")
+	}
+	st.assume(and(cs...))
+	st.frontier = f
+}
+
+func (st *State) collectRefs(v *Val, ks *[]string) {
 	if v == nil {
 		return
 	}
@@ -415,18 +531,18 @@ func (st *State) knowRef(v *Val) {
 		switch v.T.Underlying().(type) {
 		case *types.Pointer, *types.Map, *types.Chan:
 			if _, isNum := parseNum(v.Tm); !isNum {
-				st.known = append(st.known, v.Tm)
+				*ks = append(*ks, v.Tm)
 			}
 		}
 	}
 	if v.S == SSlice {
-		st.known = append(st.known, "(s_base "+v.Tm+")")
+		*ks = append(*ks, "(s_base "+v.Tm+")")
 	}
 	if v.S == SIface {
-		st.known = append(st.known, "(i_val "+v.Tm+")")
+		*ks = append(*ks, "(i_val "+v.Tm+")")
 	}
 	for _, f := range v.Fs {
-		st.knowRef(f)
+		st.collectRefs(f, ks)
 	}
 }
 
